@@ -3,7 +3,9 @@
 // Stream "prog": programs of Receive / Merge / MergeMaps over a register file of real
 // MetricMaps.  The same family of batches is merged in several random orders and bracketings
 // (one program each; some batches are received datapoint by datapoint into an intermediate
-// result instead of being merged as a map).  Every program is compared with the model in
+// result instead of being merged as a map; one batch in three starts from a "residue" map put
+// together directly - the series MetricAggregator.Reset leaves behind: timers with no values,
+// counters at 0, sets without members, gauges, with older and newer timestamps).  Every program is compared with the model in
 // lock-step order and, inside Coq, with the canonical merge of the leaves that flowed into
 // each live register under the C07 projection; the results of the different orders are also
 // compared with each other by a harness monitor.  Aliasing monitor: the source map of a Merge /
@@ -19,6 +21,7 @@ package main
 import (
 	"encoding/json"
 	"fmt"
+	"math"
 	"os"
 	"runtime"
 	"sort"
@@ -32,14 +35,109 @@ import (
 	"verifharness/mmgen"
 )
 
+// seedEntry is one series put into a map directly (not through Receive): the shapes
+// MetricAggregator.Reset leaves behind - a timer with NO values and sampled count 0, a counter
+// at 0, a set with no members, a gauge - each carrying its last-seen timestamp; occasionally a
+// series with content.
+type seedEntry struct {
+	Kind    string   `json:"kind"` // c | t | g | s
+	Name    string   `json:"name"`
+	Tags    []string `json:"tags"`
+	Src     string   `json:"src"`
+	TS      int64    `json:"ts"`
+	Val     int64    `json:"val,omitempty"`     // counter value
+	Bits    uint64   `json:"bits,omitempty"`    // gauge value
+	Vals    []uint64 `json:"vals,omitempty"`    // timer values (bit patterns); empty = the Reset residue
+	Samp    int      `json:"samp,omitempty"`    // timer sampled count (an integer)
+	Cap     int      `json:"cap,omitempty"`     // spare capacity of the timer's value slice (Reset keeps Values[:0])
+	Members []string `json:"members,omitempty"` // set members; empty = the Reset residue
+}
+
+func sortedTags(tags []string) gostatsd.Tags {
+	t := append(gostatsd.Tags{}, tags...)
+	sort.Strings(t)
+	return t
+}
+
+func (e seedEntry) key() string { return gostatsd.FormatTagsKey(gostatsd.Source(e.Src), sortedTags(e.Tags)) }
+
+// put stores the series into mm, replacing what is there.
+func (e seedEntry) put(mm *gostatsd.MetricMap) {
+	k, tags, src, ts := e.key(), sortedTags(e.Tags), gostatsd.Source(e.Src), gostatsd.Nanotime(e.TS)
+	switch e.Kind {
+	case "c":
+		if mm.Counters[e.Name] == nil {
+			mm.Counters[e.Name] = map[string]gostatsd.Counter{}
+		}
+		mm.Counters[e.Name][k] = gostatsd.Counter{Value: e.Val, Timestamp: ts, Source: src, Tags: tags}
+	case "g":
+		if mm.Gauges[e.Name] == nil {
+			mm.Gauges[e.Name] = map[string]gostatsd.Gauge{}
+		}
+		mm.Gauges[e.Name][k] = gostatsd.Gauge{Value: math.Float64frombits(e.Bits), Timestamp: ts, Source: src, Tags: tags}
+	case "t":
+		if mm.Timers[e.Name] == nil {
+			mm.Timers[e.Name] = map[string]gostatsd.Timer{}
+		}
+		vs := make([]float64, 0, len(e.Vals)+e.Cap)
+		for _, b := range e.Vals {
+			vs = append(vs, math.Float64frombits(b))
+		}
+		mm.Timers[e.Name][k] = gostatsd.Timer{Values: vs, SampledCount: float64(e.Samp), Timestamp: ts, Source: src, Tags: tags}
+	case "s":
+		if mm.Sets[e.Name] == nil {
+			mm.Sets[e.Name] = map[string]gostatsd.Set{}
+		}
+		ms := map[string]struct{}{}
+		for _, m := range e.Members {
+			ms[m] = struct{}{}
+		}
+		mm.Sets[e.Name][k] = gostatsd.Set{Values: ms, Timestamp: ts, Source: src, Tags: tags}
+	}
+}
+
+func (e seedEntry) coq() string {
+	n, k, ts, src, tags := hlib.Bytes(e.Name), hlib.Bytes(e.key()), hlib.Z(e.TS), hlib.Bytes(e.Src), hlib.StrList(sortedTags(e.Tags))
+	switch e.Kind {
+	case "c":
+		return hlib.App("EC", n, k, hlib.Z(e.Val), ts, src, tags)
+	case "g":
+		return hlib.App("EG", n, k, hlib.ZU(e.Bits), ts, src, tags)
+	case "t":
+		vs := make([]string, len(e.Vals))
+		for i, b := range e.Vals {
+			vs[i] = hlib.ZU(b)
+		}
+		return hlib.App("ET", n, k, hlib.List(vs), hlib.Z(int64(e.Samp)), "1%positive", ts, src, tags)
+	default:
+		ms := append([]string{}, e.Members...)
+		sort.Strings(ms)
+		return hlib.App("ES", n, k, hlib.StrList(ms), ts, src, tags)
+	}
+}
+
+func seedMap(es []seedEntry) (*gostatsd.MetricMap, string) {
+	mm := gostatsd.NewMetricMap(false)
+	var cs []string
+	for _, e := range es {
+		if e.Kind != "c" && e.Kind != "g" && e.Kind != "t" && e.Kind != "s" {
+			continue
+		}
+		e.put(mm)
+		cs = append(cs, e.coq())
+	}
+	return mm, hlib.List(cs)
+}
+
 type op struct {
-	Op   string     `json:"op"` // recv | merge | mergemaps | bmap | bmetrics
+	Op   string     `json:"op"` // seed | recv | merge | mergemaps | bmap | bmetrics
 	R    int        `json:"r"`  // register; for bmap / bmetrics: worker index
 	From int        `json:"from,omitempty"`
 	Srcs []int      `json:"srcs,omitempty"`
 	Dp   *mmgen.Dp  `json:"dp,omitempty"`
 	Dps  []mmgen.Dp `json:"dps,omitempty"` // bmap / bmetrics: the batch
 	Jit  int        `json:"jit,omitempty"` // bmap / bmetrics: Gosched calls before delivering
+	Seed []seedEntry `json:"seed,omitempty"` // seed: the register becomes this map; bmap: the batch map starts as this map
 }
 
 type input struct {
@@ -160,6 +258,13 @@ func runProg(em *hlib.Emitter, in input, final int) {
 	msg := hlib.Recover(func() {
 		for at, o := range in.Ops {
 			switch o.Op {
+			case "seed":
+				if !okReg(o.R) || dead[o.R] {
+					continue
+				}
+				var es string
+				regs[o.R], es = seedMap(o.Seed)
+				ops = append(ops, hlib.App("OSeed", hlib.Nat(o.R), es))
 			case "recv":
 				// an op that touches a dead register (possible only in shrunk programs) is skipped:
 				// the map shares storage with the map it was merged into
@@ -287,9 +392,13 @@ func runCons(em *hlib.Emitter, in input) {
 		}
 		switch o.Op {
 		case "bmap":
-			p.mm = mmgen.Build(o.Dps)
+			var es string
+			p.mm, es = seedMap(o.Seed)
+			for _, d := range o.Dps {
+				p.mm.Receive(d.Metric())
+			}
 			p.snap = takeSnap(p.mm)
-			batches = append(batches, hlib.App("BMap", hlib.List(ds)))
+			batches = append(batches, hlib.App("BMap", es, hlib.List(ds)))
 		case "bmetrics":
 			for _, d := range o.Dps {
 				p.metrics = append(p.metrics, d.Metric())
@@ -423,11 +532,65 @@ func runCons(em *hlib.Emitter, in input) {
 // genBatches draws k batches over a small universe.  Most datapoints hit one of a few "hot"
 // series (same name, tags, source and type; fresh value / timestamp / member / rate), so that
 // the same series occurs in several batches and every per-type merge rule is exercised.
-func genBatches(r *hlib.Rand, kLo, kHi, nHi int) [][]mmgen.Dp {
+// One batch in three starts from a "residue" map (seed): hot series in the state
+// MetricAggregator.Reset leaves them in - timers with no values, counters at 0, sets without
+// members, gauges - with timestamps both older and newer than the datapoints'; a few seeded
+// series carry content.
+type batchSpec struct {
+	Seed []seedEntry
+	Dps  []mmgen.Dp
+}
+
+func genSeed(r *hlib.Rand, hot []mmgen.Dp) []seedEntry {
+	var es []seedEntry
+	// the residue covers most live series, as after a Reset
+	for i, t := range hot {
+		if !r.Chance(2, 3) && !(i == 0 && len(es) == 0) {
+			continue
+		}
+		e := seedEntry{Name: t.Name, Tags: append([]string{}, t.Tags...), Src: t.Source, TS: int64(r.Range(96, 108))}
+		ty := t.Type
+		if r.Chance(1, 5) { // same name and tags under another type
+			ty = r.Range(1, 4)
+		}
+		content := r.Chance(1, 4)
+		switch gostatsd.MetricType(ty) {
+		case gostatsd.COUNTER:
+			e.Kind = "c"
+			if content {
+				e.Val = int64(r.Range(-50, 50))
+			}
+		case gostatsd.TIMER:
+			e.Kind = "t"
+			e.Cap = r.Range(0, 4)
+			if content {
+				for i := r.Range(1, 2); i > 0; i-- {
+					e.Vals = append(e.Vals, math.Float64bits(mmgen.ExactValue(r)))
+				}
+				e.Samp = len(e.Vals) * r.Range(1, 4)
+			}
+		case gostatsd.GAUGE:
+			e.Kind = "g"
+			e.Bits = math.Float64bits(mmgen.ExactValue(r))
+		default:
+			e.Kind = "s"
+			if content {
+				e.Members = []string{"m" + string(rune('0'+r.Intn(4)))}
+			}
+		}
+		es = append(es, e)
+	}
+	return es
+}
+
+func genBatches(r *hlib.Rand, kLo, kHi, nHi int) []batchSpec {
 	u := mmgen.NewUniverse(r, r.Range(1, 4), r.Range(1, 3), r.Range(0, 1))
 	hot := make([]mmgen.Dp, r.Range(2, 5))
 	for i := range hot {
 		hot[i] = u.Dp(r, 100, 104)
+		for try := 0; i == 0 && try < 20 && gostatsd.MetricType(hot[0].Type) != gostatsd.TIMER; try++ {
+			hot[0] = u.Dp(r, 100, 104) // at least one hot timer
+		}
 	}
 	draw := func() mmgen.Dp {
 		d := u.Dp(r, 100, 104) // few distinct timestamps: ties happen
@@ -447,11 +610,17 @@ func genBatches(r *hlib.Rand, kLo, kHi, nHi int) [][]mmgen.Dp {
 		return d
 	}
 	k := r.Range(kLo, kHi)
-	batches := make([][]mmgen.Dp, k)
+	batches := make([]batchSpec, k)
 	for i := range batches {
 		n := r.Range(0, nHi)
+		if r.Chance(1, 3) {
+			batches[i].Seed = genSeed(r, hot)
+			if r.Bool() {
+				n = r.Range(0, 2) // mostly untouched residue
+			}
+		}
 		for j := 0; j < n; j++ {
-			batches[i] = append(batches[i], draw())
+			batches[i].Dps = append(batches[i].Dps, draw())
 		}
 	}
 	return batches
@@ -473,7 +642,7 @@ func genFamily(r *hlib.Rand, fam int) []input {
 		late := make([]bool, k)
 		nown := 0
 		for i := range batches {
-			late[i] = r.Chance(1, 4)
+			late[i] = r.Chance(1, 4) && len(batches[i].Seed) == 0 // a seeded batch needs its own register
 			if !late[i] {
 				nown++
 			}
@@ -488,7 +657,10 @@ func genFamily(r *hlib.Rand, fam int) []input {
 				pending = append(pending, i)
 				continue
 			}
-			for _, d := range b {
+			if len(b.Seed) > 0 {
+				in.Ops = append(in.Ops, op{Op: "seed", R: i + 1, Seed: b.Seed})
+			}
+			for _, d := range b.Dps {
 				dd := d
 				in.Ops = append(in.Ops, op{Op: "recv", R: i + 1, Dp: &dd})
 			}
@@ -500,7 +672,7 @@ func genFamily(r *hlib.Rand, fam int) []input {
 		}
 		flushLate := func(all bool) {
 			for len(pending) > 0 && (all || r.Chance(1, 2)) {
-				b := batches[pending[0]]
+				b := batches[pending[0]].Dps
 				pending = pending[1:]
 				dst := live[r.Intn(len(live))]
 				for _, d := range b {
@@ -542,8 +714,8 @@ func genCons(r *hlib.Rand) input {
 	batches := genBatches(r, 3, 12, 6)
 	in := input{Kind: "cons", Spots: r.Range(1, 5), Workers: r.Range(1, 6), Flushes: r.Range(0, 3), Mode: r.Intn(2)}
 	for _, b := range batches {
-		o := op{Op: "bmap", R: r.Intn(in.Workers), Dps: b, Jit: r.Intn(4)}
-		if r.Bool() {
+		o := op{Op: "bmap", R: r.Intn(in.Workers), Dps: b.Dps, Seed: b.Seed, Jit: r.Intn(4)}
+		if len(b.Seed) == 0 && r.Bool() {
 			o.Op = "bmetrics"
 		}
 		in.Ops = append(in.Ops, o)
